@@ -851,9 +851,25 @@ struct Net {
 /// ephemeral port of 127.0.0.1 in TIME_WAIT after a few ten thousand cases.
 static LISTENERS: std::sync::OnceLock<(std::net::TcpListener, Option<std::net::TcpListener>)> = std::sync::OnceLock::new();
 
+/// bind(127.0.0.1:0) with real-time retries: when other checks running on the machine have
+/// momentarily used up the ephemeral ports (TIME_WAIT), wait instead of failing the case.
+fn bind_loopback_retry() -> std::net::TcpListener {
+    let t0 = std::time::Instant::now();
+    loop {
+        match std::net::TcpListener::bind("127.0.0.1:0") {
+            Ok(l) => return l,
+            Err(e) if t0.elapsed() < std::time::Duration::from_secs(120) => {
+                let _ = e;
+                std::thread::sleep(std::time::Duration::from_millis(250));
+            }
+            Err(e) => panic!("bind loopback: {e}"),
+        }
+    }
+}
+
 fn case_net() -> Option<Net> {
     let (l4, l6) = LISTENERS.get_or_init(|| {
-        let l4 = std::net::TcpListener::bind("127.0.0.1:0").expect("bind 127.0.0.1");
+        let l4 = bind_loopback_retry();
         l4.set_nonblocking(true).expect("nonblocking");
         let l6 = std::net::TcpListener::bind("[::1]:0").ok();
         if let Some(l) = &l6 {
